@@ -170,6 +170,10 @@ StageLaws(e, runs) ==
      /\ (s = n => (e.ok <=> FLt(la, tol)))
 \* the last non-GMRES entry of the log is the residual the convergence decision was taken on
 LastStageRun(runs) == LET idx == {i \in 1..Len(runs) : runs[i].solver # "GMRES"} IN runs[CHOOSE i \in idx : \A k \in idx : k <= i]
+\* The residual norm is an ABSOLUTE density error: a tolerance of 1e-11 resolves a bulk density rho_b only to 1e-11 / rho_b, and the number of
+\* particles follows the bulk density.  (Found with another seed: Moles specified, rho_b = 1.2e-5: N met to 4.7e-7.)
+MinBulk(o) == o.bulk_rho_after[CHOOSE i \in 1..Len(o.bulk_rho_after) : \A j \in 1..Len(o.bulk_rho_after) : FLe(o.bulk_rho_after[i], o.bulk_rho_after[j])]
+TolMoles(o) == FAdd("1e-7", FDiv("1e-10", MinBulk(o)))
 Key(e) == <<e.functional, e.system>>
 NotConvergedMsg == "`DFT` did not converge within the maximum number of iterations."
 Solve ==
@@ -193,9 +197,9 @@ Solve ==
                  Report("C18.bulk_unchanged", <<info, o.bulk_rho_before, o.bulk_rho_after, l>>,
                         \A i \in 1..Len(o.bulk_rho_before) : FClose(o.bulk_rho_before[i], o.bulk_rho_after[i], "1e-10", FAbs(o.bulk_rho_before[i]), "0")))
           /\ ((E.spec # "ChemicalPotential" /\ tight) =>
-                 Chk("C18.specified_moles_met", <<info, E.spec_total_moles, o.moles, l>>, FSum(o.moles), E.spec_total_moles, "1e-7", FAbs(E.spec_total_moles), "0"))
+                 Chk("C18.specified_moles_met", <<info, E.spec_total_moles, o.moles, l>>, FSum(o.moles), E.spec_total_moles, TolMoles(o), FAbs(E.spec_total_moles), "0"))
           /\ ((E.spec = "Moles" /\ tight) => \A i \in 1..Len(E.spec_moles) :
-                 Chk("C18.specified_moles_met", <<info, i, E.spec_moles[i], o.moles[i], l>>, o.moles[i], E.spec_moles[i], "1e-7", FAbs(E.spec_moles[i]), "0"))
+                 Chk("C18.specified_moles_met", <<info, i, E.spec_moles[i], o.moles[i], l>>, o.moles[i], E.spec_moles[i], TolMoles(o), FAbs(E.spec_moles[i]), "0"))
           /\ ((tight /\ hasRef /\ E.spec = "ChemicalPotential") =>
                  /\ (Has(E, "surface_tension") /\ Has(refobs[k], "surface_tension") =>
                         Chk("C18.observables_agree", <<info, "surface tension", l>>, E.surface_tension, refobs[k].surface_tension, "1e-6", FAbs(refobs[k].surface_tension), "0"))
